@@ -21,7 +21,7 @@ def _weighted(pairs):
 def charts(draw, max_states=12, max_depth=4, p_hist=0.4, allow_final=True, root_final=0.3,
            n_events=3, min_tr=3, max_tr=14, p_orth_root=0.3, mix=DEFAULT_MIX, p_eventless=0.2,
            p_sends=0.0, p_notify=0.0, send_delays=False, force_history=False,
-           priorities=PRIORITIES, dup_tr=0.0, name_fmt='s%02d', allow_orthogonal=True, orth_weight=None):
+           priorities=PRIORITIES, dup_tr=0.0, name_fmt='s%02d', allow_orthogonal=True, orth_weight=None, p_hist2=0.25):
     """A well-formed chart spec (DESIGN.md section 2), built by construction."""
     nodes = []
     budget = [max_states - 1]
@@ -65,6 +65,9 @@ def charts(draw, max_states=12, max_depth=4, p_hist=0.4, allow_final=True, root_
                                                                          hist_made[0]) else p_hist):
             add(draw(st.sampled_from(['shallow', 'deep'])), idx, n['depth'] + 1)
             hist_made[0] = True
+            if draw(st.floats(0, 1)) < p_hist2:
+                # a compound state may own several history children (shallow and/or deep)
+                add(draw(st.sampled_from(['shallow', 'deep'])), idx, n['depth'] + 1)
         for c in kids:
             grow(c)
 
